@@ -6,6 +6,7 @@ import (
 	"crypto/elliptic"
 	"crypto/rand"
 	"fmt"
+	"strings"
 
 	cose "github.com/veraison/go-cose"
 	psa "github.com/veraison/psatoken"
@@ -176,6 +177,32 @@ func runC08(r *Run, rng *Rng, thorough bool) {
 		r.Case(class, ndev == 0, "gates "+d.Line(), line)
 		for _, f := range fails {
 			r.Fail(f[0], f[1])
+		}
+		// a gate consults the validator on every call: claims attached while valid and then changed
+		// in place (the Evidence holds the very same object) must not get through ValidateAndSign
+		if valid && rng.Chance(12) {
+			bad := c19Claims(rng, false)
+			for bad.P != d.P {
+				bad = c19Claims(rng, false)
+			}
+			dd := d
+			ops := []*evOp{{Kind: "setclaims", D: &dd}, {Kind: "mutate", D: bad}, {Kind: "vsign", Key: 0, Alg: keys()[0].algs[0], Mode: "good"},
+				{Kind: "mutate", D: &dd}, {Kind: "vsign", Key: 0, Alg: keys()[0].algs[0], Mode: "good"}, {Kind: "verify", Key: 0}}
+			ev := &psa.Evidence{}
+			res := make([]string, len(ops))
+			protos := make([]string, len(ops))
+			for i, o := range ops {
+				res[i] = stepString(o, o.exec(ev))
+				protos[i] = o.proto()
+			}
+			r.Case(class+"/mutated-after-attach", false, fmt.Sprintf("ev keys=%s ops=%s", keysProto(), strings.Join(protos, "|")),
+				"r="+strings.Join(res, ",")+" claims="+evClaimsDesc(ev))
+			if res[0] != "ok" || res[2] != "err" {
+				r.Fail("gate-iff-valid", fmt.Sprintf("SetClaims(valid)=%s, then the attached object made invalid in place, ValidateAndSign=%s (must fail)", res[0], trunc(res[2], 8)))
+			}
+			if !strings.HasPrefix(res[4], "ok") || res[5] != "ok" {
+				r.Fail("like-sibling", fmt.Sprintf("valid again: ValidateAndSign=%s Verify=%s", trunc(res[4], 8), res[5]))
+			}
 		}
 	})
 }
